@@ -23,6 +23,12 @@ def symname(n):
     return f"sym_{n}"
 
 
+def calign(k):
+    """alignment requested by the common definitions of file k: decreasing along the command line, so that the storage of
+    a common symbol allocated from a LATER definition than the selected one is (usually) visibly under-aligned."""
+    return 128 >> min(k, 4)
+
+
 def optional(f):
     return (f["kind"] == "ar" and not f.get("whole")) or (f["kind"] == "so" and f.get("as_needed", False))
 
@@ -54,7 +60,7 @@ def render_file(k, f, is_main):
             _, n, s, size, comdat = e
             name = symname(n)
             if s == "c":
-                out.append(f"    .comm {name},{size},8\n")
+                out.append(f"    .comm {name},{size},{calign(k)}\n")
                 continue
             if comdat:
                 out.append(f'    .section .data.{name},"awG",@progbits,grp_{name},comdat\n')
@@ -168,6 +174,19 @@ def observe(out_path, files):
         else:
             defs[n] = classify_ptr(e, syms, y.value, n)
     return "".join(bits), refs, defs
+
+
+def common_alignments(out_path, files):
+    """{name number: address of the symbol} for every name that has a common definition and is defined in the output's .bss."""
+    e = Elf(out_path)
+    commons = {en[1] for f in files for en in f["entries"] if en[0] == "D" and en[2] == "c"}
+    res = {}
+    for y in e.symtab():
+        if y.shndx != 0 and y.bind != 0:
+            for n in commons:
+                if y.name == symname(n):
+                    res[n] = y.value
+    return res
 
 
 def classify_ptr(e, syms, p, n):
